@@ -725,7 +725,7 @@ static inline char *safec_find_percent_n(const char *fmt) {
             fmt++;
             continue;
         }
-        while (*fmt && strchr("-+ #0123456789.*'", *fmt))
+        while (*fmt && strchr("-+ #0123456789.*'$", *fmt))
             fmt++;
         while (*fmt && strchr("hlLjztq", *fmt))
             fmt++;
@@ -754,7 +754,7 @@ static inline wchar_t *safec_find_percent_wn(const wchar_t *fmt) {
             fmt++;
             continue;
         }
-        while (*fmt && *fmt < 128 && strchr("-+ #0123456789.*'", (int)*fmt))
+        while (*fmt && *fmt < 128 && strchr("-+ #0123456789.*'$", (int)*fmt))
             fmt++;
         while (*fmt && *fmt < 128 && strchr("hlLjztq", (int)*fmt))
             fmt++;
